@@ -11,6 +11,8 @@
    of any length from the freshly created pool. *)
 From Compio.Model Require Import Base Pool RunC07.
 From Compio.Thm Require Import PoolThm.
+From Compio.Gen Require Frag.
+From Compio.Thm Require FragMiscThm.
 Local Open Scope nat_scope.
 
 (* Each pool buffer has exactly one owner at any time; ids outside the pool
@@ -344,3 +346,14 @@ Proof.
   vm_compute. discriminate.
 Qed.
 Print Assumptions C07_error_completion_early_return_refuted.
+
+(* ---- source tie (translated from the Rust source on every run by tools/rs2v.py
+        into gen/Frag.v; an edit of the function changes the generated definition) ---- *)
+(* the ring entry BufRing::add_buffer writes (`(tail + offset) % len`,
+   compio-driver/src/sys/buffer_pool/iour.rs) as the source has it now is the model's
+   ring_idx wherever the u16 sum does not overflow (where it does, the debug build panics) *)
+Theorem C07_ring_index_is_source : forall t off len,
+  ring_idx t off len =
+    if (t + off <? U16)%N then Ok (nn (Frag.pool_ring_idx t off (NN len))) else Panic P_ADD_OVERFLOW.
+Proof. exact FragMiscThm.ring_idx_tie. Qed.
+Print Assumptions C07_ring_index_is_source.
